@@ -41,9 +41,14 @@ Definition seg_inv (g : segment) : Prop :=
 Definition segs_inv (l : list segment) : Prop := Forall seg_inv l.
 (** [cpre]: what Compose needs; [cinv]: what holds after every operation
     (the composition's own input is then no longer than the raw input) *)
+(** the sticky error flag is never a null dereference or an invalid page range
+    (the two kinds the invariant excludes; substr/fuel bounds are not tracked here) *)
+Definition err_ok (e : option err) : Prop :=
+  match e with Some ErrNullDeref | Some ErrBadRange => False | _ => True end.
+
 Definition cpre (c : context) : Prop :=
   cx_caret c <= length (cx_input c) /\ segs_inv (sg_segs (cx_comp c)) /\
-  IP (cx_input c) /\ IP (sg_input (cx_comp c)).
+  IP (cx_input c) /\ IP (sg_input (cx_comp c)) /\ err_ok (cx_err c).
 Definition cinv (c : context) : Prop :=
   cpre c /\ length (sg_input (cx_comp c)) <= length (cx_input c).
 Definition sinv (s : state) : Prop := cinv (st_ctx s).
@@ -284,16 +289,21 @@ Lemma translate_segs_input sg : sg_input (fst (translate_segs translate sg)) = s
 Proof. unfold translate_segs. destruct (translate_list translate (sg_input sg) (sg_segs sg)). reflexivity. Qed.
 
 (** ---- contexts ---- *)
-Lemma cinv_err c e : cinv c -> cinv (ctx_fail c e).
-Proof. intros H; exact H. Qed.
-Lemma cinv_check c b e : cinv c -> cinv (ctx_check c b e).
-Proof. intros H. unfold ctx_check. destruct b; exact H. Qed.
+Lemma err_ok_fail c e : e = ErrSubstr \/ e = ErrFuel -> err_ok (cx_err c) -> err_ok (cx_err (ctx_fail c e)).
+Proof. intros He H. cbn. destruct (cx_err c); [exact H|]. destruct He as [-> | ->]; exact I. Qed.
+Lemma cinv_err c e : e = ErrSubstr \/ e = ErrFuel -> cinv c -> cinv (ctx_fail c e).
+Proof.
+  intros He ((H1 & H2 & H3 & H4 & H5) & H6). split; [|exact H6]. repeat split; try assumption.
+  apply err_ok_fail; assumption.
+Qed.
+Lemma cinv_check c b e : e = ErrSubstr \/ e = ErrFuel -> cinv c -> cinv (ctx_check c b e).
+Proof. intros He H. unfold ctx_check. destruct b; [exact H | apply cinv_err; assumption]. Qed.
 Lemma cinv_opts c o : cinv c -> cinv (ctx_with_opts c o).
 Proof. intros H; exact H. Qed.
 Lemma cinv_comp c sg :
   cinv c -> segs_inv (sg_segs sg) -> sg_input sg = sg_input (cx_comp c) -> cinv (ctx_with_comp c sg).
 Proof.
-  intros ((H1 & _ & H3 & H4) & H5) H2 E. split; [repeat split; auto; cbn; rewrite E; exact H4|].
+  intros ((H1 & _ & H3 & H4 & He) & H5) H2 E. split; [repeat split; auto; cbn; rewrite E; exact H4|].
   cbn. rewrite E. exact H5.
 Qed.
 Lemma cinv_segs c : cinv c -> segs_inv (sg_segs (cx_comp c)).
@@ -303,7 +313,7 @@ Proof. intros H; apply H. Qed.
 
 Lemma compose_inv c : cpre c -> cinv (compose cfg translate c).
 Proof.
-  intros (Hc & Hs & Hi & Hci). unfold compose.
+  intros (Hc & Hs & Hi & Hci & He). unfold compose.
   set (sg0 := reset_input (cx_comp c) (firstn (cx_caret c) (cx_input c))).
   assert (H0 : segs_inv (sg_segs sg0)) by (apply reset_input_inv; exact Hs).
   set (sg1 := if (cx_caret c <? length (cx_input c)) && (cx_caret c =? confirmed_pos sg0)
@@ -322,7 +332,8 @@ Proof.
   destruct (translate_segs translate sg2) as [sg3 oks] eqn:Et. cbn [fst] in H3.
   assert (E3 : sg_input sg3 = sg_input sg2).
   { pose proof (translate_segs_input sg2) as T. rewrite Et in T. exact T. }
-  apply cinv_check, cinv_check. split; [split; [exact Hc|]; split; [exact H3|]; split; [exact Hi|]|];
+  apply cinv_check; [auto|]. apply cinv_check; [auto|].
+  split; [split; [exact Hc|]; split; [exact H3|]; split; [exact Hi|]; split; [|exact He]|];
     cbn [ctx_with_comp cx_comp cx_input]; rewrite E3; [exact Hi2|].
   rewrite Ci. subst sg1. destruct ((cx_caret c <? length (cx_input c)) && (cx_caret c =? confirmed_pos sg0));
     [rewrite reset_input_input; lia | subst sg0; rewrite reset_input_input, firstn_length; lia].
@@ -330,7 +341,7 @@ Qed.
 
 Lemma compose_with_input_inv c i k :
   cinv c -> k <= length i -> IP i -> cinv (compose cfg translate (ctx_with_input c i k)).
-Proof. intros ((_ & Hs & _ & Hci) & _) Hk Hi. apply compose_inv. repeat split; assumption. Qed.
+Proof. intros ((_ & Hs & _ & Hci & He) & _) Hk Hi. apply compose_inv. repeat split; assumption. Qed.
 
 Lemma cinv_ip c : cinv c -> IP (cx_input c).
 Proof. intros H; apply H. Qed.
@@ -362,7 +373,7 @@ Qed.
 
 Lemma clear_inv c : cinv c -> cinv (clear cfg translate c).
 Proof.
-  intros H. unfold clear. apply compose_inv. repeat split; cbn; [lia | constructor | exact IP_nil | apply H].
+  intros H. unfold clear. apply compose_inv. repeat split; cbn; [lia | constructor | exact IP_nil | apply H | apply H].
 Qed.
 
 Lemma set_caret_pos_inv c pos : cinv c -> cinv (set_caret_pos cfg translate c pos).
@@ -485,14 +496,14 @@ Lemma commit_inv s : sinv s -> sinv (fst (commit cfg translate s)).
 Proof.
   intros H. unfold commit. destruct (negb (is_composing (st_ctx s))); [exact H|].
   destruct (ctx_commit_text (st_ctx s)) as [text ok]. cbn [fst]. apply sinv_with.
-  apply clear_inv. cbn. apply cinv_check. exact H.
+  apply clear_inv. cbn. apply cinv_check; [auto | exact H].
 Qed.
 
-Lemma on_select_inv s : sinv s -> sinv (on_select cfg translate s).
+Lemma on_select_inv s : sinv s -> sg_segs (cx_comp (st_ctx s)) <> [] -> sinv (on_select cfg translate s).
 Proof.
-  intros H. unfold on_select.
+  intros H Hne. unfold on_select.
   match goal with |- sinv (mkSt (st_ctx ?x) _ _ _) => assert (Hx : sinv x); [|exact Hx] end.
-  destruct (sg_segs (cx_comp (st_ctx s))) as [|g0 r] eqn:E; [exact H|].
+  destruct (sg_segs (cx_comp (st_ctx s))) as [|g0 r] eqn:E; [congruence|].
   pose proof (seg_inv_close g0 (back_inv _ _ _ H E)) as Hg.
   destruct (s_end (seg_close g0) =? length (cx_input (st_ctx s))).
   - set (c1 := ctx_with_comp (st_ctx s) (sg_set_back (cx_comp (st_ctx s)) (seg_with_status (seg_close g0) SConfirmed))).
@@ -511,7 +522,9 @@ Qed.
 Lemma select_inv s i : sinv s -> sinv (fst (select cfg translate s i)).
 Proof.
   intros H. unfold select. destruct (sg_segs (cx_comp (st_ctx s))) as [|g r] eqn:E; [exact H|].
-  destruct (cand_at g i) as [cd|] eqn:Ec; [|exact H]. cbn [fst]. apply on_select_inv, sinv_with, cinv_set_back; [exact H|].
+  destruct (cand_at g i) as [cd|] eqn:Ec; [|exact H]. cbn [fst].
+  apply on_select_inv; [|cbn; unfold sg_set_back; rewrite E; discriminate].
+  apply sinv_with, cinv_set_back; [exact H|].
   apply seg_inv_status, seg_inv_sel_at; [apply (back_inv _ _ _ H E)|].
   intros m Hm _. apply (cand_at_some g i cd Ec m Hm).
 Qed.
@@ -521,9 +534,12 @@ Proof.
   intros H. unfold confirm_current_selection. destruct (sg_segs (cx_comp (st_ctx s))) as [|g r] eqn:E; [exact H|].
   assert (H1 : sinv (st_with_ctx s (ctx_with_comp (st_ctx s) (sg_set_back (cx_comp (st_ctx s)) (seg_with_status g SSelected))))).
   { apply sinv_with, cinv_set_back; [exact H | apply seg_inv_status, (back_inv _ _ _ H E)]. }
-  destruct (selected_cand (seg_with_status g SSelected)); cbn [fst]; [apply on_select_inv; exact H1|].
+  assert (Hne : sg_segs (cx_comp (st_ctx (st_with_ctx s (ctx_with_comp (st_ctx s)
+                  (sg_set_back (cx_comp (st_ctx s)) (seg_with_status g SSelected)))))) <> [])
+    by (cbn; unfold sg_set_back; rewrite E; discriminate).
+  destruct (selected_cand (seg_with_status g SSelected)); cbn [fst]; [apply on_select_inv; assumption|].
   destruct (s_end (seg_with_status g SSelected) =? s_start (seg_with_status g SSelected)); cbn [fst];
-    [exact H1 | apply on_select_inv; exact H1].
+    [exact H1 | apply on_select_inv; assumption].
 Qed.
 
 Lemma delete_candidate_inv s i : sinv s -> sinv (fst (delete_candidate cfg s i)).
@@ -791,7 +807,7 @@ Proof.
   - apply commit_inv. apply on_ctx_inv; [exact H | intros; apply clear_non_confirmed_inv; assumption].
   - destruct (comp_script_text (cx_comp (st_ctx s))) as [t ok]. cbn [fst].
     apply on_ctx_inv; [|intros; apply clear_inv; assumption]. apply sinv_sink. apply on_ctx_inv; [exact H|].
-    intros c Hc. apply cinv_check, Hc.
+    intros c Hc. apply cinv_check; [auto | exact Hc].
   - pose proof (confirm_current_selection_inv s H) as H1.
     destruct (confirm_current_selection cfg translate s) as [s1 ok]. cbn [fst] in H1.
     destruct (negb ok || negb (has_menu (st_ctx s1))); cbn [fst]; [apply commit_inv|]; exact H1.
@@ -897,16 +913,6 @@ Proof.
   - apply sinv_with, set_option_inv, H.
 Qed.
 
-Lemma step_inv s o : sinv s -> op_ok o -> sinv (fst (step cfg translate s o)).
-Proof.
-  intros H Ho. unfold step. destruct (cx_err (st_ctx s)); [exact H|].
-  pose proof (exec_inv s o H Ho) as H1. destruct (exec cfg translate s o) as [s1 r]. cbn [fst] in H1.
-  destruct (view_of cfg s1) as [v ve].
-  assert (H2 : sinv (match ve with Some e => st_with_ctx s1 (ctx_fail (st_ctx s1) e) | None => s1 end))
-    by (destruct ve; exact H1).
-  destruct (cx_err (st_ctx (match ve with Some e => st_with_ctx s1 (ctx_fail (st_ctx s1) e) | None => s1 end))); exact H2.
-Qed.
-
 Lemma init_inv : sinv (init_state cfg).
 Proof. repeat split; cbn; [lia | constructor | exact IP_nil | exact IP_nil | lia]. Qed.
 
@@ -952,6 +958,48 @@ Proof.
     cbn [mo_hl mo_cands mo_page_size mo_page_no pg_cands]. rewrite firstn_length, skipn_length.
     apply andb_true_iff. split; [|apply Z.eqb_eq; subst sel; lia].
     repeat (apply andb_true_iff; split); try apply Z.leb_le; try apply Z.ltb_lt; subst start; lia.
+Qed.
+
+Lemma menu_view_ok c : cinv c -> snd (menu_view cfg c) = true.
+Proof.
+  intros H. unfold menu_view. destruct (negb (has_menu c)) eqn:Ehm; [reflexivity|].
+  destruct (sg_segs (cx_comp c)) as [|g r] eqn:E; [reflexivity|].
+  destruct (s_menu g) as [m|] eqn:Em; [|reflexivity].
+  assert (Hne : m <> []).
+  { unfold has_menu, sg_back in Ehm. rewrite E in Ehm. cbn in Ehm. rewrite Em in Ehm. destruct m; [discriminate | discriminate]. }
+  destruct (sel_small g m (back_inv c g r H E) Em Hne) as (Hi & Hlt & Hb). unfold menu_bounded in Hb.
+  rewrite Hi. set (ps := cf_page_size cfg) in *. set (sel := Z.of_N (s_sel g)) in *.
+  assert (Hsel0 : (0 <= sel)%Z) by (subst sel; lia).
+  rewrite Z.quot_div_nonneg by lia.
+  assert (Hq : (0 <= sel / ps)%Z) by (apply Z.div_pos; lia).
+  assert (Hqle : (ps * (sel / ps) <= sel)%Z) by (apply Z.mul_div_le; lia).
+  rewrite (size_of_int_small ps), (size_of_int_small (sel / ps)) by lia.
+  unfold create_page, menu_count.
+  assert (Hstart : size_wrap (Z.to_N ps * Z.to_N (sel / ps)) = Z.to_N (ps * (sel / ps))).
+  { rewrite size_wrap_small; lia. }
+  rewrite Hstart. set (start := Z.to_N (ps * (sel / ps))).
+  assert (Hend : size_wrap (start + Z.to_N ps) = (start + Z.to_N ps)%N) by (apply size_wrap_small; subst start; lia).
+  rewrite Hend.
+  destruct (N.of_nat (length m) <? start + Z.to_N ps)%N.
+  - destruct (N.of_nat (length m) <=? start)%N; reflexivity.
+  - replace (start + Z.to_N ps <=? start)%N with false by (symmetry; apply N.leb_gt; lia). reflexivity.
+Qed.
+
+Lemma view_err_ok s : sinv s -> match snd (view_of cfg s) with Some ErrSubstr | None => True | _ => False end.
+Proof.
+  intros H. unfold view_of. destruct (ctx_commit_text (st_ctx s)) as [pv ok2].
+  pose proof (menu_view_ok (st_ctx s) H) as Hm. destruct (menu_view cfg (st_ctx s)) as [mv ok3]. cbn [snd] in *. subst ok3.
+  destruct (is_composing (st_ctx s) && negb (pe_ok (ctx_preedit (st_ctx s)) && ok2)); exact I.
+Qed.
+
+Lemma step_inv s o : sinv s -> op_ok o -> sinv (fst (step cfg translate s o)).
+Proof.
+  intros H Ho. unfold step. destruct (cx_err (st_ctx s)); [exact H|].
+  pose proof (exec_inv s o H Ho) as H1. destruct (exec cfg translate s o) as [s1 r]. cbn [fst] in H1.
+  pose proof (view_err_ok s1 H1) as Hv. destruct (view_of cfg s1) as [v ve]. cbn [snd] in Hv.
+  assert (H2 : sinv (match ve with Some e => st_with_ctx s1 (ctx_fail (st_ctx s1) e) | None => s1 end)).
+  { destruct ve as [e|]; [|exact H1]. destruct e; try contradiction. apply (cinv_err (st_ctx s1)); [auto | exact H1]. }
+  destruct (cx_err (st_ctx (match ve with Some e => st_with_ctx s1 (ctx_fail (st_ctx s1) e) | None => s1 end))); exact H2.
 Qed.
 
 Lemma view_wf s : sinv s -> wf_viewb (fst (view_of cfg s)) = true.
@@ -1007,6 +1055,38 @@ Qed.
 
 Theorem reachable_inv ops : Forall op_ok ops -> sinv (fst (run cfg translate ops)).
 Proof. apply run_from_inv, init_inv. Qed.
+
+(** ---- no observation reports a null dereference or an invalid page range ---- *)
+Definition obs_ok (o : obs) : Prop :=
+  match o with ObsCrash ErrNullDeref | ObsCrash ErrBadRange => False | _ => True end.
+
+Lemma sinv_err_ok s : sinv s -> err_ok (cx_err (st_ctx s)).
+Proof. intros H; apply H. Qed.
+
+Lemma step_obs_ok s o : sinv s -> op_ok o -> obs_ok (snd (step cfg translate s o)).
+Proof.
+  intros H Ho. pose proof (step_inv s o H Ho) as Hi. pose proof (sinv_err_ok s H) as He.
+  unfold step in *. destruct (cx_err (st_ctx s)) as [e|] eqn:Ee.
+  - cbn [snd obs_ok]. destruct e; try exact I; exact He.
+  - destruct (exec cfg translate s o) as [s1 r]. destruct (view_of cfg s1) as [v ve].
+    pose proof (sinv_err_ok _ Hi) as He2.
+    destruct (cx_err (st_ctx (match ve with Some e => st_with_ctx s1 (ctx_fail (st_ctx s1) e) | None => s1 end))) as [e|] eqn:E2;
+      cbn [fst snd obs_ok] in *; [|exact I].
+    rewrite E2 in He2. destruct e; try exact I; exact He2.
+Qed.
+
+Lemma run_from_obs_ok ops : forall s, sinv s -> Forall op_ok ops -> Forall obs_ok (snd (run_from cfg translate s ops)).
+Proof.
+  induction ops as [|o r IH]; intros s H Hops; [constructor|]. cbn [run_from].
+  inversion Hops as [|? ? Ho Hr]; subst.
+  pose proof (step_obs_ok s o H Ho) as Hw. pose proof (step_inv s o H Ho) as Hi.
+  destruct (step cfg translate s o) as [s1 ob]. cbn [fst snd] in *.
+  specialize (IH s1 Hi Hr). destruct (run_from cfg translate s1 r) as [s2 obs]. cbn [snd] in *.
+  constructor; assumption.
+Qed.
+
+Theorem no_null_no_bad_range_gen ops : Forall op_ok ops -> Forall obs_ok (snd (run cfg translate ops)).
+Proof. apply run_from_obs_ok, init_inv. Qed.
 
 
 (** ---- the UTF-8 clause: with [IP] = ASCII and [MP] = clean candidates the
@@ -1090,6 +1170,19 @@ Proof.
   assert (H : sinv cfg (fun _ => True) (fun _ => True) (fst (run cfg translate ops))).
   { eapply reachable_inv; eauto. apply Forall_forall. intros o _. destruct o; exact I. }
   cbv zeta. destruct H as ((Hc & _) & Hr). split; assumption.
+Qed.
+
+(** over all histories the modelled core never dereferences a null candidate
+    and never builds an invalid page range *)
+Theorem no_null_no_bad_range (cfg : config) (translate : bytes -> seginfo -> list cand) :
+  (1 <= cf_page_size cfg)%Z ->
+  (forall i s, (Z.of_nat (length (translate i s)) + cf_page_size cfg < 2147483648)%Z) ->
+  cf_del_checked cfg = true ->
+  forall ops, Forall obs_ok (snd (run cfg translate ops)).
+Proof.
+  intros Hps Hlen Hdel ops.
+  eapply no_null_no_bad_range_gen with (MP := fun _ => True) (IP := fun _ => True); eauto.
+  apply Forall_forall. intros o _. destruct o; exact I.
 Qed.
 
 Definition op_ascii (o : op) : Prop := match o with OpSetInput v => all_ascii v | _ => True end.
